@@ -41,7 +41,7 @@ def make_rows(cols, n, seed, nulls=False):
             elif c == 's':
                 row[c] = 'r%d-%s' % (k, 'é' * (b[1] % 3))
             elif c == 'f':
-                row[c] = (k - 5) * 0.25 + b[2] / 256.0
+                row[c] = float('nan') if (nulls and b[2] % 11 == 0) else (k - 5) * 0.25 + b[2] / 256.0
             elif c == 'st':
                 row[c] = {'a': k, 'b': 'x' * (b[3] % 4)}
             else:
@@ -52,6 +52,19 @@ def make_rows(cols, n, seed, nulls=False):
             row = dict(reversed(list(row.items())))     # same content, other key order: rows are looked up by column NAME
         rows.append(row)
     return rows
+
+
+def same_rows(a, b):
+    """row lists equal, NaN == NaN, None is not NaN"""
+    def eq(x, y):
+        if isinstance(x, float) and isinstance(y, float) and x != x and y != y:
+            return True
+        if isinstance(x, dict) and isinstance(y, dict):
+            return x.keys() == y.keys() and all(eq(x[k], y[k]) for k in x)
+        if isinstance(x, list) and isinstance(y, list):
+            return len(x) == len(y) and all(eq(p, q) for p, q in zip(x, y))
+        return type(x) is type(y) and x == y
+    return eq(a, b)
 
 
 def run_case(case):
@@ -80,7 +93,7 @@ def run_case(case):
             table = pq.read_table(f).to_pylist()
         except Exception as e:
             raise Violation('the written file is not readable by pyarrow: %r' % e, **ctx)
-        if table != rows:
+        if not same_rows(table, rows):
             raise Violation('file holds %d rows, %d were written%s' % (
                 len(table), len(rows), '' if len(table) != len(rows) else ' (contents differ)'),
                 first_rows_in_file=table[:3], first_rows_written=rows[:3], **ctx)
@@ -88,9 +101,16 @@ def run_case(case):
             with open(f, 'rb') as fo:
                 r = drive.collect(parquet.load_from_file(fo, batch_size=case['load_batch']))
         else:
-            r = drive.collect(parquet.load_from_file(f, batch_size=case['load_batch']))
+            loader = parquet.load_from_file(f, batch_size=case['load_batch'])
+            r = drive.collect(loader)
+            if case.get('twice'):
+                H.require_clean(r, 'parquet.load_from_file (first pass)', **ctx)
+                first = r.items
+                r = drive.collect(loader)          # a second pass over the same load observable reads the whole file again
+                if len(r.items) != len(first):
+                    raise Violation('second pass over the same load_from_file observable returned %d rows, the first %d' % (len(r.items), len(first)), **ctx)
         H.require_clean(r, 'parquet.load_from_file', **ctx)
-        if r.items != rows or any(type(a.get(c)) is not type(b.get(c)) for a, b in zip(r.items, rows) for c in cols):
+        if not same_rows(r.items, rows):
             raise Violation('load_from_file returned %d rows, %d were written%s' % (
                 len(r.items), len(rows), '' if len(r.items) != len(rows) else ' (contents differ)'), **ctx)
     finally:
